@@ -249,6 +249,7 @@ def run(ctx):
 
     res = pmap(one, list(enumerate(graphs)))
     shared_namespaces(ctx, home, graphs, quick)
+    foreign_use(ctx, home, graphs, quick)
     for x in res[5:9] + res[-3:]:
         ctx.sample({"packages": x[0], "imports": {str(k): v for k, v in x[1].items()}, "expected": x[2], "exit": x[3]})
     special(ctx, home)
@@ -304,6 +305,55 @@ def shared_namespaces(ctx, home, graphs, quick):
                 ctx.violation("accepted:conflict:%s" % rel, "%s: a namespace claimed by two reachable directories must be an error, got rc=%s" % (desc, p.rc), case)
             elif not both and p.rc != 0 and longest_path(adj) < LIMIT:
                 ctx.violation("rejected-valid-graph:unreachable-claimant", "%s: only one of the two is reachable from the root, yet the package is rejected: %s" % (desc, cli.clean(p.stderr)[:300]), case)
+            else:
+                shutil.rmtree(base, ignore_errors=True)
+
+    pmap(one, jobs)
+
+
+def foreign_use(ctx, home, graphs, quick):
+    """a package refers to a type of a package that is part of the same load but that it does not import, neither directly nor through its own imports
+    (the root imports both): on its own that package does not validate ('type not recognized'), so the load must fail and name that package's file -
+    the types of a namespace are usable from the packages that import it, not from everybody who happens to be loaded together with it."""
+    jobs = []
+    for gi, (n, adj) in enumerate(graphs):
+        if n < 3 or has_reachable_cycle(adj) or any(u in vs for u, vs in adj.items()) or longest_path(adj) >= LIMIT:
+            continue
+        if quick and n == 4 and gi % 7:
+            continue
+        rset = reach(adj)
+        for u in sorted(rset):
+            for v in sorted(rset):
+                if u != v and u != 0 and v not in reach(adj, u):
+                    jobs.append((gi, n, adj, u, v))
+
+    def one(job):
+        gi, n, adj, u, v = job
+        nodes = sorted(adj)
+        orders = [{x: list(adj[x]) for x in nodes}, {x: list(reversed(adj[x])) for x in nodes}]
+        if orders[0] == orders[1]:
+            orders = orders[:1]
+        for oi, ordered in enumerate(orders):
+            base = os.path.join(ctx.workdir, "cases", "foreign%d_%d_%d_%d" % (gi, u, v, oi))
+            shutil.rmtree(base, ignore_errors=True)
+            pkgdir = write_graph(base, n, ordered)
+            with open(os.path.join(base, "p%d" % u, "model.yml"), "a") as f:
+                f.write("Foreign%d: !record\n  fields:\n    x: P%d.R%d\n" % (u, v, v))
+            p, parsed, dump = observe(pkgdir, home)
+            ctx.ev()
+            ctx.case(("foreign-use", n, tuple(sorted((a, tuple(b)) for a, b in ordered.items())), u, v))
+            ctx.count("foreign-use")
+            desc = "graph n=%d %s order %s: package %d uses P%d.R%d although neither it nor any of its imports imports package %d" % (n, {a: b for a, b in sorted(adj.items())}, ordered, u, v, v, v)
+            case = {"case_dir": base, "graph": adj, "order": ordered, "user": u, "used": v, "stderr": cli.clean(p.stderr)[-1200:]}
+            site = cli.panic_site(p.stderr)
+            if p.timed_out:
+                raise Inconclusive("watchdog")
+            if site:
+                ctx.violation("panic@%s" % site, "%s: crash" % desc, case)
+            elif p.rc == 0:
+                ctx.violation("accepted:use-of-a-package-that-is-not-imported", "%s: accepted (validating package %d alone rejects it)" % (desc, u), case)
+            elif ("p%d/model.yml" % u) not in cli.clean(p.stderr):
+                ctx.violation("rejected-without-naming-the-file:foreign-use", "%s: rejected, but no diagnostic names p%d/model.yml: %s" % (desc, u, cli.clean(p.stderr)[:300]), case)
             else:
                 shutil.rmtree(base, ignore_errors=True)
 
